@@ -618,6 +618,11 @@ End Renaming.
 (* 6. Readers                                                           *)
 (* ------------------------------------------------------------------ *)
 
+(* a handler of a mux that is in the middle of no other dispatch just reads *)
+Lemma run_reads_no_nest {St} (rdr : St -> rd St) b s :
+  run_reads no_nest rdr b s = let '(got, s') := take_n rdr (hb_reads b) s in (got, s', []).
+Proof. unfold run_reads, no_nest. destruct (hb_nest b) as [[a j]|]; reflexivity. Qed.
+
 Lemma take_n_u tm k toks : take_n (u_token tm) k toks = (firstn k toks, skipn k toks).
 Proof.
   revert toks. induction k as [|k IH]; intro toks; [reflexivity|].
@@ -716,11 +721,11 @@ Definition iq_invoke_spec (r : registry) (sn : name) (h : hdr) (payload : option
 
 Lemma invoke_iq_spec r sn h payload tm st script content :
   (forall k, fst (take_n (iq_reader tm) k st) = firstn k content) ->
-  invoke_iq r sn h payload tm st script = iq_invoke_spec r sn h payload content script.
+  invoke_iq no_nest r sn h payload tm st script = iq_invoke_spec r sn h payload content script.
 Proof.
   intro H. unfold invoke_iq, iq_invoke_spec.
   destruct (lookup_iq r (h_type h) _) as [[|hd]|]; try reflexivity.
-  destruct (next_beh script) as [b s']. cbn [fst].
+  destruct (next_beh script) as [b s']. cbn [fst]. rewrite run_reads_no_nest.
   specialize (H (hb_reads b)). destruct (take_n (iq_reader tm) (hb_reads b) st) as [got st']. cbn [fst] in H.
   subst got. reflexivity.
 Qed.
@@ -762,7 +767,7 @@ Definition iq_spec (r : registry) (sn : name) (h : hdr) (toks : list tok) (tm : 
 
 Lemma iq_router_spec r sn attrs toks tm script h :
   new_iq sn attrs = Some h ->
-  iq_router r sn attrs toks tm script = iq_spec r sn h toks tm script.
+  iq_router no_nest r sn attrs toks tm script = iq_spec r sn h toks tm script.
 Proof.
   intro Hh. unfold iq_router, iq_spec. rewrite Hh.
   rewrite trim_first_spec by lia.
@@ -1040,7 +1045,7 @@ Section Loop.
   Lemma fc_loop_spec : forall fuel it v rest script failed,
     at_view (pred fuel) it v -> skip_elem 0 v = Some rest ->
     exists bfin,
-      fc_loop tm r k typ fuel it script failed =
+      fc_loop no_nest tm r k typ fuel it script failed =
       (let '(evs, f) := spec_events r k typ all (child_names 0 v) script in LDone evs bfin false (failed || f)) /\
       Inv all bfin rest.
   Proof.
@@ -1062,8 +1067,8 @@ Section Loop.
         cbn [it_b it_cnt it_cur].
         assert (I0 : Inv all (mkbr (b_buf b') 0 (b_und b')) all).
         { destruct I' as (A1 & A2 & A3). unfold Inv. cbn [b_buf b_off b_und]. repeat split; auto. lia. }
-        destruct (take_n_b tm all (hb_reads bh) _ _ I0) as (br & ET & IT & LT). rewrite ET.
-        cbn [b_buf] in LT.
+        destruct (take_n_b tm all (hb_reads bh) _ _ I0) as (br & ET & IT & LT). rewrite run_reads_no_nest, ET.
+        cbn [b_buf fold_right] in LT |- *.
         assert (I'' : Inv all (mkbr (b_buf br) (b_off b') (b_und br)) v1).
         { destruct I' as (A1 & A2 & A3). destruct IT as (B1 & _ & _). unfold Inv. cbn [b_buf b_off b_und].
           repeat split; auto. lia. }
@@ -1104,33 +1109,17 @@ Definition children_spec (r : registry) (k : skind) (sn : name) (typ : bytes) (t
 Lemma for_children_spec r k sn typ toks tm script rest :
   (forall n h, lookup_child r k typ n = Some h -> h <> 0) ->
   skip_elem 0 toks = Some rest ->
-  for_children r k sn typ toks tm script = children_spec r k sn typ toks script.
+  for_children no_nest r k sn typ toks tm script = children_spec r k sn typ toks script.
 Proof.
-  intros nz HS. unfold for_children, children_spec. rewrite wildcard_name.
+  intros nz HS.
   assert (I0 : Inv (TStart sn :: toks) (mkbr [TStart sn] 1 toks) toks).
   { unfold Inv. cbn [b_buf b_off b_und length app skipn]. auto. }
   destruct toks as [|x toks']; [discriminate|].
   assert (GEN : x <> TEnd ->
-    match fc_loop tm r k typ (length (x :: toks') + 3) (mkiter (Some 0) CNone (mkbr [TStart sn] 1 (x :: toks'))) script false with
-    | LFuel => out_fuel
-    | LPanic evs => mkout evs [] RetPanic
-    | LDone evs b iter_err failed =>
-        if iter_err then mkout evs [] RetErr
-        else if failed then mkout evs [] RetErr
-        else if length (b_buf b) =? 2 then
-          match lookup_child r k typ ([], []) with
-          | None => mkout evs [] RetOk
-          | Some 0 => mkout evs [] RetPanic
-          | Some h =>
-              let '(bh, _) := next_beh (skipn (length evs) script) in
-              let '(got, _) := take_n (b_token tm) (hb_reads bh) (mkbr (b_buf b) 0 (b_und b)) in
-              mkout (evs ++ [child_event k h typ got]) [] (ret_of bh)
-          end
-        else mkout evs [] RetOk
-    end =
+    for_children no_nest r k sn typ (x :: toks') tm script =
     (let '(evs, f) := spec_events r k typ (TStart sn :: x :: toks') (child_names 0 (x :: toks')) script in
      mkout evs [] (if f then RetErr else RetOk))).
-  { intro Hx.
+  { intro Hx. unfold for_children.
     assert (HA : at_view (TStart sn :: x :: toks') (pred (length (x :: toks') + 3))
                    (mkiter (Some 0) CNone (mkbr [TStart sn] 1 (x :: toks'))) (x :: toks')).
     { apply AtTop; cbn [it_cnt it_cur it_b]; auto. cbn [length]. lia. }
@@ -1145,20 +1134,22 @@ Proof.
     cbn [length] in L, L2.
     assert (length (b_buf bfin) =? 2 = false) as -> by (apply Nat.eqb_neq; lia).
     reflexivity. }
+  unfold children_spec.
   destruct x as [n| |ws|]; try (apply GEN; discriminate).
   (* the empty stanza *)
-  clear GEN. cbn [length]. replace (S (length toks') + 3) with (S (S (length toks' + 2))) by lia.
+  clear GEN. unfold for_children. rewrite wildcard_name.
+ cbn [length]. replace (S (length toks') + 3) with (S (S (length toks' + 2))) by lia.
   assert (Hbt : b_token tm (mkbr [TStart sn] 1 (TEnd :: toks')) =
                 RTok TEnd (fin_err tm toks') (mkbr [TStart sn; TEnd] 2 toks')).
   { unfold b_token. cbn [b_off b_buf b_und length Nat.ltb Nat.leb u_token]. rewrite bufreader_buffers. reflexivity. }
   cbn [fc_loop]. unfold iter_next. cbn [it_cur it_cnt it_b]. unfold ir_token, inner_token. rewrite Hbt.
-  cbn [it_b b_buf length Nat.eqb app skipn].
+  cbn [it_b b_buf length Nat.eqb app skipn own_count filter].
   destruct (lookup_child r k typ ([], [])) as [h|] eqn:EL; [|reflexivity].
   pose proof (nz _ _ EL) as Hnz. destruct h as [|h]; [congruence|].
   destruct (next_beh script) as [bh s']. cbn [fst b_und].
   assert (I1 : Inv (TStart sn :: TEnd :: toks') (mkbr [TStart sn; TEnd] 0 toks') (TStart sn :: TEnd :: toks')).
   { unfold Inv. cbn [b_buf b_off b_und length app skipn]. repeat split; auto; lia. }
-  destruct (take_n_b tm _ (hb_reads bh) _ _ I1) as (br & ET & _). rewrite ET. reflexivity.
+  destruct (take_n_b tm _ (hb_reads bh) _ _ I1) as (br & ET & _). rewrite run_reads_no_nest, ET. reflexivity.
 Qed.
 
 (* ------------------------------------------------------------------ *)
@@ -1170,28 +1161,28 @@ Lemma handle_top r ns sn attrs toks tm script h :
   handle r ns sn attrs toks tm script =
   let b := fst (next_beh script) in mkout [EvTop h sn (firstn (hb_reads b) toks)] [] (ret_of b).
 Proof.
-  intros E Hz. unfold handle. rewrite E. unfold run_top. destruct h as [|h]; [congruence|].
-  destruct (next_beh script) as [b s']. rewrite take_n_u. reflexivity.
+  intros E Hz. unfold handle, handle_gen. rewrite E. unfold run_top. destruct h as [|h]; [congruence|].
+  destruct (next_beh script) as [b s']. rewrite run_reads_no_nest, take_n_u. reflexivity.
 Qed.
 
 Lemma handle_not_stanza r ns sn attrs toks tm script :
   lookup_top r sn = None -> stanza_is sn ns = false -> handle r ns sn attrs toks tm script = out_nothing.
-Proof. intros E1 E2. unfold handle. rewrite E1, E2. reflexivity. Qed.
+Proof. intros E1 E2. unfold handle, handle_gen. rewrite E1, E2. reflexivity. Qed.
 
 Lemma handle_iq r ns sn attrs toks tm script :
   lookup_top r sn = None -> stanza_is sn ns = true -> snd sn = str "iq" ->
-  handle r ns sn attrs toks tm script = iq_router r sn attrs toks tm script.
-Proof. intros E1 E2 E3. unfold handle. rewrite E1, E2, E3. reflexivity. Qed.
+  handle r ns sn attrs toks tm script = iq_router no_nest r sn attrs toks tm script.
+Proof. intros E1 E2 E3. unfold handle, handle_gen. rewrite E1, E2, E3. reflexivity. Qed.
 
 Lemma handle_message r ns sn attrs toks tm script :
   lookup_top r sn = None -> stanza_is sn ns = true -> snd sn = str "message" ->
-  handle r ns sn attrs toks tm script = msg_router r sn attrs toks tm script.
-Proof. intros E1 E2 E3. unfold handle. rewrite E1, E2, E3. reflexivity. Qed.
+  handle r ns sn attrs toks tm script = msg_router no_nest r sn attrs toks tm script.
+Proof. intros E1 E2 E3. unfold handle, handle_gen. rewrite E1, E2, E3. reflexivity. Qed.
 
 Lemma handle_presence r ns sn attrs toks tm script :
   lookup_top r sn = None -> stanza_is sn ns = true -> snd sn = str "presence" ->
-  handle r ns sn attrs toks tm script = pres_router r sn attrs toks tm script.
-Proof. intros E1 E2 E3. unfold handle. rewrite E1, E2, E3. reflexivity. Qed.
+  handle r ns sn attrs toks tm script = pres_router no_nest r sn attrs toks tm script.
+Proof. intros E1 E2 E3. unfold handle, handle_gen. rewrite E1, E2, E3. reflexivity. Qed.
 
 (* a stanza is one of the three names, in the mux's namespace (any if it has none) *)
 Lemma stanza_is_spec sn ns :
@@ -1244,12 +1235,12 @@ Proof.
 Qed.
 
 (* messages and presences never make the mux write anything *)
-Lemma for_children_no_replies r k sn typ toks tm script : o_replies (for_children r k sn typ toks tm script) = [].
+Lemma for_children_no_replies r k sn typ toks tm script : o_replies (for_children no_nest r k sn typ toks tm script) = [].
 Proof.
   unfold for_children. destruct (fc_loop _ _ _ _ _ _ _ _) as [|evs|evs b ie f]; try reflexivity.
   destruct ie; [reflexivity|]. destruct f; [reflexivity|]. destruct (length (b_buf b) =? 2); [|reflexivity].
   destruct (lookup_child r k typ _) as [[|h]|]; try reflexivity.
-  destruct (next_beh _) as [bh s']. destruct (take_n _ _ _) as [got br]. reflexivity.
+  destruct (next_beh _) as [bh s']. destruct (run_reads _ _ _ _) as [[got br] ne]. reflexivity.
 Qed.
 
 Lemma spec_events_none r k typ all names script :
@@ -1283,7 +1274,7 @@ Fixpoint chosen (r : registry) (k : skind) (typ : bytes) (names : list name) : l
   end.
 
 Definition event_hid (e : event) : hid :=
-  match e with EvTop h _ _ | EvIq h _ _ _ | EvMsg h _ _ | EvPres h _ _ => h end.
+  match e with EvTop h _ _ | EvIq h _ _ _ | EvMsg h _ _ | EvPres h _ _ => h | EvNested _ _ _ _ => 0 end.
 
 Lemma spec_events_chosen r k typ all names : forall script,
   map event_hid (fst (spec_events r k typ all names script)) = chosen r k typ names.
@@ -1443,7 +1434,7 @@ Definition child_hdr (k : skind) (sn : name) (attrs : list attr) : option hdr :=
 
 Lemma handle_children r ns sn attrs toks tm script k h :
   lookup_top r sn = None -> stanza_is sn ns = true -> snd sn = child_local k -> child_hdr k sn attrs = Some h ->
-  handle r ns sn attrs toks tm script = for_children r k sn (h_type h) toks tm script.
+  handle r ns sn attrs toks tm script = for_children no_nest r k sn (h_type h) toks tm script.
 Proof.
   intros E1 E2 E3 Hh. destruct k; cbn [child_local child_hdr] in *.
   - rewrite (handle_message _ _ _ _ _ _ _ E1 E2 E3). unfold msg_router. rewrite Hh. reflexivity.
